@@ -8,14 +8,11 @@ def hllEstimate (r : Regs) : Nat :=
   let sum : Float := r.foldl (fun acc m => acc + Float.exp2 (-(Float.ofNat m))) 0.0
   let M : Float := 256.0
   let alpha : Float := 0.7213 / (1.0 + 1.079 / M)
-  let two32 : Float := 4294967296.0
   let est0 := alpha * (M * M) / sum
   let est :=
     if est0 <= (5.0 / 2.0) * M then
       if zc != 0 then M * Float.log (M / Float.ofNat zc) else est0
-    else if est0 > (1.0 / 30.0) * two32 then
-      -two32 * Float.log2 (1.0 - est0 / two32)
-    else est0
+    else est0      -- (no large-range correction: the registers are not fed by a 32-bit hash)
   let r := est.round
   if r.isNaN then 0 else if r <= 0.0 then 0 else r.toUInt64.toNat
 
